@@ -17,9 +17,14 @@ ASSUMPTIONS = [
     "function are pure functions of their arguments",
     "the caller passes zix_tree_remove an iterator of a live element of this tree (model: BAD_ARG otherwise, never "
     "exercised on the C side)",
-    "parent-pointer stepping of zix_tree_iter_next/prev is modelled on the functional tree (in-order neighbour "
-    "by descent with the nearest left-/right-ancestor), not at pointer level; a wrong parent link shows in the "
-    "walks/steered paths of the correspondence only",
+    "parent-pointer stepping of zix_tree_iter_next/prev: the theorems of Properties_C06 are about the functional "
+    "tree (in-order neighbour by descent with the nearest left-/right-ancestor); the correspondence compares "
+    "iter_next and iter_prev from the held iterator of EVERY live node after every insert/remove (trees of up "
+    "to 24 nodes; token L), every n/p step and all walks against the extracted pointer-level model "
+    "coq/AvlHeapModel.v (heap of nodes with parent/left/right links, every pointer assignment of tree.c "
+    "transcribed), which is proved (coq/Properties_C06_heap.v) to refine the functional model; the model driver "
+    "also cross-checks the two models on every case (token HEAPDIFF on any disagreement); trees above 24 nodes "
+    "have their parent links exercised by the walks, n/p steps and steered paths only",
     "zix_tree_size cannot wrap (size = number of allocated nodes < 2^64)",
 ]
 
@@ -48,7 +53,7 @@ def build(ctx):
         except vlib.BuildError as e:
             ctx.notes.append("ZIX_TREE_VERIFY cross-check build failed (not part of the check): " + str(e)[-200:])
     exe = os.path.join(vlib.OCAML_BUILD, "drv_c06")
-    srcs = [os.path.join(vlib.COQ, f) for f in ("AvlModel.v", "AvlSpec.v", "ExtractC06.v")]
+    srcs = [os.path.join(vlib.COQ, f) for f in ("AvlModel.v", "AvlHeapModel.v", "AvlSpec.v", "ExtractC06.v")]
     srcs.append(os.path.join(vlib.VERIF, "ocaml", "drv_c06.ml"))
     if _stale(exe, srcs):
         rc, out, err = vlib.sh([os.path.join(vlib.VERIF, "tools", "build_models.sh"), "C06"], timeout=900)
@@ -435,6 +440,19 @@ def stats(cases, impl):
                         name = "root_" + name
                     rm[name] += 1
     d["op_results"] = cnt
+    # parent-link sweeps (token L<id>next.../<id>prev...): sweeps and single next/prev steps compared with the
+    # pointer-level model
+    sweeps = steps = biggest = 0
+    for l in impl:
+        parts = l.split(" || ")
+        if len(parts) > 1:
+            for t in parts[1].split():
+                if t[0] == "L" and "/" in t:
+                    sweeps += 1
+                    n = t.count(">")
+                    steps += n
+                    biggest = max(biggest, n // 2)
+    d["parent_link_sweeps"] = {"sweeps": sweeps, "next_prev_steps_compared": steps, "largest_tree_swept": biggest}
     d["removal_targets"] = rm
     d["rotation_cases_in_model_runs"] = {ROT_NAMES.get(k, k): v for k, v in sorted(_xstats.get("rot", {}).items())}
     d["removals_by_number_of_rotations"] = {str(k): v for k, v in sorted(_xstats.get("per_remove", {}).items())}
